@@ -3,15 +3,13 @@ import MidiModel.Basic
 # The midicat text line protocol (`drivers/midicat/midicat.go`, encoder side `drivers/midicatdrv/out.go`)
 
 One record per line: `fmt.Fprintf(wr, "%d %X\n", ts, bytes)`; the reader `ReadAndConvert` pulls single
-bytes out of an `io.Reader` up to `'\n'`, hands what preceded the first `' '` to `fmt.Sscanf(…, "%d", *int32)`
-and what followed to `fmt.Sscanf(…, "%X", *[]byte)`.
+bytes out of an `io.Reader` up to `'\n'`, hands what preceded the `' '` to `strconv.ParseInt(…, 10, 32)`
+and what followed to `encoding/hex.Decode` (the code after the repair `fix: midicat line reader accepted
+malformed lines`; before it both fields went through `fmt.Sscanf`, which ignores trailing garbage).
 
 Everything is over explicit byte lists (`List Nat`, ASCII codes: `' '` = 32, `'\n'` = 10, `'-'` = 45,
-`'+'` = 43). The fragments of `fmt`'s scanner the code relies on are modelled from the Go 1.23 sources
-(`fmt/scan.go`: `SkipSpace`, `scanInt`/`scanNumber`, `hexString`/`hexByte`) at byte level; this is sound
-because every rune the scanner acts on (space, sign, digit, hex digit) is ASCII except the Unicode
-spaces, whose UTF-8 encodings are listed in `skipSpace`; any other byte ≥ 0x80 decodes to a rune
-(or `RuneError`) that is neither, exactly like the byte itself. Validated differentially (harness/c19.go).
+`'+'` = 43). `ParseInt` and `hex.Decode` are modelled from the Go 1.23 sources at byte level and
+validated differentially (harness/c19.go, garbage streams).
 -/
 namespace Midi.Midicat
 
@@ -43,63 +41,29 @@ def encodeStream : List (Int × Bytes) → Bytes
   | [] => []
   | (ts, bs) :: r => encodeRec ts bs ++ encodeStream r
 
-/-! ## The modelled fragments of `fmt.Sscanf` -/
-
-/-- single-byte white space of `fmt`'s `isSpace` (`\t \v \f \r` and blank). `'\n'` (10) is *not* listed:
-    `SkipSpace` raises "unexpected newline" on it, but no buffer handed to `Sscanf` by `Read` can contain
-    10 (it terminates the line), so that branch is unreachable and left out. -/
-def isSpace1 (b : Nat) : Bool := b = 9 || b = 11 || b = 12 || b = 13 || b = 32
-
-/-- two-byte UTF-8 white space: U+0085, U+00A0 -/
-def isSpace2 (b0 b1 : Nat) : Bool := b0 = 0xC2 && (b1 = 0x85 || b1 = 0xA0)
-
-/-- three-byte UTF-8 white space: U+1680, U+2000–U+200A, U+2028, U+2029, U+202F, U+205F, U+3000 -/
-def isSpace3 (b0 b1 b2 : Nat) : Bool :=
-  (b0 = 0xE1 && b1 = 0x9A && b2 = 0x80) ||
-  (b0 = 0xE2 && b1 = 0x80 && ((0x80 ≤ b2 && b2 ≤ 0x8A) || b2 = 0xA8 || b2 = 0xA9 || b2 = 0xAF)) ||
-  (b0 = 0xE2 && b1 = 0x81 && b2 = 0x9F) ||
-  (b0 = 0xE3 && b1 = 0x80 && b2 = 0x80)
-
-/-- `(*ss).SkipSpace` on a buffer without newline: drop leading white-space runes -/
-def skipSpace : Bytes → Bytes
-  | [] => []
-  | b0 :: r =>
-    if isSpace1 b0 then skipSpace r
-    else match r with
-      | [] => b0 :: r
-      | b1 :: r1 =>
-        if isSpace2 b0 b1 then skipSpace r1
-        else match r1 with
-          | [] => b0 :: r
-          | b2 :: r2 => if isSpace3 b0 b1 b2 then skipSpace r2 else b0 :: r
+/-! ## The field parsers: `strconv.ParseInt(s, 10, 32)` and `encoding/hex.Decode` -/
 
 def isDigit (b : Nat) : Bool := 48 ≤ b && b ≤ 57
 
-/-- `for s.accept("0123456789") {}`: the leading digits -/
-def takeDigits : Bytes → Bytes
-  | [] => []
-  | b :: r => if isDigit b then b :: takeDigits r else []
-
-/-- value of a digit string (`strconv.ParseInt(tok, 10, 64)` without the range check) -/
+/-- value of a digit string -/
 def digitsVal (ds : Bytes) : Nat := ds.foldl (fun a d => a * 10 + (d - 48)) 0
 
-/-- `fmt.Sscanf(string(b), "%d", &deltams)` with `deltams int32`; `none` = error.
-    `SkipSpace`; `notEOF`; optional sign; at least one digit ("expected integer" / EOF otherwise); the digits;
-    whatever follows is ignored by `Sscanf`; `ParseInt` range error or "integer overflow" unless the value
-    fits into 32 bits. -/
-def scanDelta (bf : Bytes) : Option Int :=
-  match skipSpace bf with
+/-- `convertDelta`: `strconv.ParseInt(string(b), 10, 32)`; `none` = error. The whole field must be an optional
+    sign followed by at least one decimal digit and nothing else (no blanks, no underscores in base 10), and
+    the value must fit into an `int32` (`ErrRange` otherwise). -/
+def parseInt (bf : Bytes) : Option Int :=
+  match bf with
   | [] => none
   | c :: r =>
     let neg := c = 45
     let body := if c = 45 ∨ c = 43 then r else c :: r
-    let ds := takeDigits body
-    if ds = [] then none
-    else
-      let v : Int := if neg then -(digitsVal ds : Int) else (digitsVal ds : Int)
+    if body = [] then none
+    else if body.all isDigit then
+      let v : Int := if neg then -(digitsVal body : Int) else (digitsVal body : Int)
       if -2147483648 ≤ v ∧ v ≤ 2147483647 then some v else none
+    else none
 
-/-- `hexDigit` of `fmt/scan.go`: both cases accepted -/
+/-- `reverseHexTable` of `encoding/hex`: both cases accepted -/
 def hexVal (b : Nat) : Option Nat :=
   if 48 ≤ b ∧ b ≤ 57 then some (b - 48)
   else if 65 ≤ b ∧ b ≤ 70 then some (b - 55)
@@ -108,35 +72,32 @@ def hexVal (b : Nat) : Option Nat :=
 
 def isHex (b : Nat) : Bool := (hexVal b).isSome
 
-/-- the loop of `(*ss).hexString`: pairs of hex digits are collected; the loop ends *silently* at the end of
-    the input or at a first digit of a pair that is no hex digit; a pair whose second rune is missing
-    (`io.ErrUnexpectedEOF`) or no hex digit ("illegal hex digit") is an error (`none`). -/
-def hexLoop : Bytes → Option Bytes
+/-- `hex.Decode(out, b)`: every pair must consist of two hex digits (`InvalidByteError` otherwise), a
+    single digit left over is `ErrLength`; `none` = error -/
+def hexDecode : Bytes → Option Bytes
   | [] => some []
-  | [c] => if isHex c then none else some []
+  | [_] => none
   | c1 :: c2 :: r =>
     match hexVal c1 with
-    | none => some []
+    | none => none
     | some v1 =>
       match hexVal c2 with
       | none => none
-      | some v2 => (hexLoop r).map (fun t => (v1 * 16 + v2) :: t)
+      | some v2 => (hexDecode r).map (fun t => (v1 * 16 + v2) :: t)
 
-/-- `fmt.Sscanf(string(b), "%X", &out)` with `out []byte`; `none` = error (`EOF` on empty input after
-    `SkipSpace`, "no hex data for %x string" if the loop collected nothing, or the loop's own error). -/
+/-- `convert`: an empty field is an error ("missing message bytes"), otherwise `hex.Decode` of the whole field -/
 def scanHex (b : Bytes) : Option Bytes :=
-  match hexLoop (skipSpace b) with
-  | none => none
-  | some [] => none
-  | some bs => some bs
+  if b = [] then none else hexDecode b
 
 /-! ## The reader on an in-memory stream -/
 
 inductive ErrKind
   /-- `rd.Read` returned an error (`io.EOF` at the end of the stream) -/
   | read
-  /-- `convertDelta` failed (reported at the first blank; the rest of the line stays in the stream) -/
+  /-- `convertDelta` failed (reported at the blank; the rest of the line stays in the stream) -/
   | delta
+  /-- a second blank inside a line (reported at once; the rest of the line stays in the stream) -/
+  | sep
   /-- `convert` failed (after the whole line was consumed) -/
   | hex
   deriving DecidableEq, Repr
@@ -156,15 +117,16 @@ structure St where
   deriving DecidableEq, Repr
 
 /-- the `for` loop of `Read` on the bytes obtained from the reader; returns `Read`'s result and the bytes
-    not consumed. A blank (re-)converts `deltaBf` (a second blank converts the same buffer again and is
-    otherwise dropped); newline returns; other bytes go to `out` after the first blank, to `deltaBf` before. -/
+    not consumed. The first blank converts `deltaBf`, a second one is an error; newline returns; other bytes
+    go to `out` after the blank, to `deltaBf` before. -/
 def readLoop : Bytes → St → Except ErrKind (Int × Bytes) × Bytes
   | [], _ => (.error .read, [])
   | b :: rest, st =>
     if b = 32 then
-      match scanDelta st.deltaBf with
-      | none => (.error .delta, rest)
-      | some d => readLoop rest { st with deltams := d, deltaRead := true }
+      if st.deltaRead then (.error .sep, rest)
+      else match parseInt st.deltaBf with
+        | none => (.error .delta, rest)
+        | some d => readLoop rest { st with deltams := d, deltaRead := true }
     else if b = 10 then (.ok (st.deltams, st.out), rest)
     else if st.deltaRead then readLoop rest { st with out := st.out ++ [b] }
     else readLoop rest { st with deltaBf := st.deltaBf ++ [b] }
@@ -213,32 +175,35 @@ def Src.read (s : Src) (k : Nat) : Bytes × Bool × Src :=
         (s.data.take n, s.eofWithData && n = s.data.length,
          { s with data := s.data.drop n, frags := if f - n = 0 then fs else (f - n) :: fs })
 
-/-- the helper `read(rd)`: one `Read` into a 1-byte buffer. `none` = error. If `Read` returns an error
-    the byte possibly delivered with it is dropped; if it returns `(0, nil)` the helper yields byte 0. -/
-def read1 (s : Src) : Option Nat × Src :=
-  match s.read 1 with
-  | (bs, eof, s') =>
-    if eof then (none, s')
-    else match bs with
+/-- the helper `read(rd)`: `Read` into a 1-byte buffer until a byte or an error arrives. A byte delivered
+    together with an error is returned (the error shows up again on the next `Read`); `(0, nil)` is retried
+    (fuel: one round per empty piece). `none` = error. -/
+def read1 : Nat → Src → Option Nat × Src
+  | 0, s => (none, s)
+  | fuel+1, s =>
+    match s.read 1 with
+    | (bs, eof, s') =>
+      match bs with
       | [b] => (some b, s')
-      | _ => (some 0, s')
+      | _ => if eof then (none, s') else read1 fuel s'
 
-/-- the loop of `Read` against a source (fuel: every round uses up a data byte or a piece) -/
+/-- the loop of `Read` against a source (fuel: every round uses up a data byte) -/
 def readLoopS : Nat → Src → St → Except ErrKind (Int × Bytes) × Src
   | 0, s, _ => (.error .read, s)
   | fuel+1, s, st =>
-    match read1 s with
+    match read1 (s.frags.length + 1) s with
     | (none, s') => (.error .read, s')
     | (some b, s') =>
       if b = 32 then
-        match scanDelta st.deltaBf with
-        | none => (.error .delta, s')
-        | some d => readLoopS fuel s' { st with deltams := d, deltaRead := true }
+        if st.deltaRead then (.error .sep, s')
+        else match parseInt st.deltaBf with
+          | none => (.error .delta, s')
+          | some d => readLoopS fuel s' { st with deltams := d, deltaRead := true }
       else if b = 10 then (.ok (st.deltams, st.out), s')
       else if st.deltaRead then readLoopS fuel s' { st with out := st.out ++ [b] }
       else readLoopS fuel s' { st with deltaBf := st.deltaBf ++ [b] }
 
-def Src.fuel (s : Src) : Nat := s.data.length + s.frags.length + 1
+def Src.fuel (s : Src) : Nat := s.data.length + 1
 
 def readAndConvertS (s : Src) : Res × Src :=
   match readLoopS s.fuel s {} with
@@ -271,6 +236,7 @@ def showRes : Res × Nat → String
   | (.ok ts m, rem) => s!"ok:{showInt ts}:{hex m}:{rem}"
   | (.err .read, rem) => s!"err:read:{rem}"
   | (.err .delta, rem) => s!"err:delta:{rem}"
+  | (.err .sep, rem) => s!"err:sep:{rem}"
   | (.err .hex, rem) => s!"err:hex:{rem}"
 
 /-- piece sizes: `-` or a comma separated list of `a` / `a*n` (n pieces of size a) -/
@@ -300,7 +266,7 @@ def handle (op : String) (args : List String) : String :=
       else if d.any (· ≥ 256) then "bad-op"
       else
         let s : Src := { data := d, frags := fr, eofWithData := e = "1" }
-        let rs := readAllS (s.fuel + 1) s
+        let rs := readAllS (s.data.length + 2) s
         s!"n={rs.length} rs={joinWith ";" (rs.map showRes)}"
     | _, _, _ => "bad-op"
   | "midicat.enc" =>
